@@ -1,0 +1,7 @@
+
+import os
+import redun
+
+@redun.task
+def main(context: dict = redun.get_context("my_tool", None)) -> dict:
+    return context
